@@ -263,6 +263,6 @@ func TestC03_Mutated(t *testing.T) {
 		if k++; k%397 == 1 {
 			cov.Sample("c03.text", c)
 		}
-		judge(rt, "c03.text", c03TextCheck, c)
+		judgeH(rt, "c03.text", c03TextCheck, c, l)
 	})
 }
